@@ -245,7 +245,10 @@ func registerMisc(e *Engine) {
 			t := q[k]
 			nq := append(append([]goTask{}, q[:k]...), q[k+1:]...)
 			ex.st["goq"] = nq
-			if _, pan := ex.callAny(t.fn, t.args, nil); pan != nil {
+			ex.st["cur_goroutine"] = t.id
+			_, pan := ex.callAny(t.fn, t.args, nil)
+			ex.st["cur_goroutine"] = 0
+			if pan != nil {
 				return nil, pan
 			}
 		}
